@@ -10,6 +10,8 @@ immutable typechecker.Typechecker.Module typechecker.Typechecker.panicMode ast.M
 // the checker annotates expressions but never changes their operator or operands
 immutable ast.UnaryExpr.Operator ast.UnaryExpr.Rhs ast.BinaryExpr.Operator ast.BinaryExpr.Lhs ast.BinaryExpr.Rhs
 immutable ast.TernaryExpr.Operator ast.TernaryExpr.Lhs ast.TernaryExpr.Mid ast.TernaryExpr.Rhs
+immutable ast.ListLit.Values ast.ListLit.Count ast.ListLit.Value ast.VarDecl.Type ast.VarDecl.InitVal ast.VarDecl.IsPublic
+immutable ast.AssignStmt.Var ast.AssignStmt.Rhs
 
 // type classes: 1 Zahl, 2 Kommazahl, 3 Byte, 4 Wahrheitswert, 5 Buchstabe, 6 Text, 0 anything else
 spec clsOf(ty ddptypes.Type) int :=
@@ -84,4 +86,37 @@ func (*Typechecker).VisitTernaryExpr [C04, C02]
   ensures reached(LS) && overload == nil && !(ast.numericCls(clsOf(lhs)) && ast.numericCls(clsOf(mid)) && ast.numericCls(clsOf(rhs))) ==> t.Module.Ast.Faulty
   ensures reached(LS) && overload == nil && ast.numericCls(clsOf(lhs)) && ast.numericCls(clsOf(mid)) && ast.numericCls(clsOf(rhs)) ==>
             t.Module.Ast.Faulty == at(LS, t.Module.Ast.Faulty) && clsOf(t.latestReturnedType) == 4
+
+// ================= C14 / C04: what a variable accepts =================
+// verbatim from the statement: equivalent types, any numeric type for any numeric type, and any value but
+// 'nothing' for Variable
+spec accepts(target ddptypes.Type, value ddptypes.Type) bool :=
+     ddptypes.Equal(target, value)
+  || (ddptypes.IsNumeric(target) && ddptypes.IsNumeric(value))
+  || (ddptypes.Equal(target, ddptypes.VARIABLE) && !ddptypes.Equal(value, mk[ddptypes.VoidType]()))
+
+// initialisation: an initialiser the declared type does not accept is reported; an accepted one is not
+// (a non-public type in a public declaration is a separate rule)
+func (*Typechecker).VisitVarDecl [C14, C04]
+  requires t != nil && t.Module != nil && t.Module.Ast != nil && t.panicMode != nil && decl != nil && decl.InitVal != nil
+  at LE after call Evaluate
+  ensures reached(LE) && !ddptypes.IsGeneric(decl.Type) && !accepts(decl.Type, initialType) ==> t.Module.Ast.Faulty
+  ensures reached(LE) && accepts(decl.Type, initialType) && !decl.IsPublic ==> t.Module.Ast.Faulty == at(LE, t.Module.Ast.Faulty)
+  // the checker records the initialiser's own type
+  ensures reached(LE) ==> initialType == at(LE, t.latestReturnedType)
+
+// assignment uses the same predicate, so the two positions always agree
+func (*Typechecker).VisitAssignStmt [C14, C04]
+  requires t != nil && t.Module != nil && t.Module.Ast != nil && t.panicMode != nil && stmt != nil
+  at LE after call Evaluate
+  ensures reached(LE) && !accepts(target, rhs) ==> t.Module.Ast.Faulty
+  ensures reached(LE) && accepts(target, rhs) ==> t.Module.Ast.Faulty == at(LE, t.Module.Ast.Faulty)
+
+// a list literal 'N Mal Wert' has the list type of ITS OWN value's type (whatever type the context expects),
+// so a wrongly typed value is caught by the initialiser / assignment rule
+func (*Typechecker).VisitListLit [C04, C14]
+  requires t != nil && t.Module != nil && t.Module.Ast != nil && t.panicMode != nil && expr != nil
+  at LV after call Evaluate
+  ensures reached(LV) && expr.Values == nil && expr.Count != nil && expr.Value != nil ==>
+            t.latestReturnedType == box(mk[ddptypes.ListType](at(LV, t.latestReturnedType)))
 @*/
